@@ -56,7 +56,7 @@ def _explore_one(job):
 def explore_jobs(tier):
     def mc(n, me):
         return ("MC_Centrality", {"Kind": "hg", "Node": set(range(1, n + 1)), "ZMin": 1, "ZMax": n, "MaxEdges": me}, MC_INV)
-    return [mc(3, 7), mc(4, 3)] if tier == "quick" else [mc(3, 7), mc(4, 7), mc(5, 3)]
+    return [mc(3, 7), mc(4, 4)] if tier == "quick" else [mc(3, 7), mc(4, 7), mc(5, 3)]
 
 
 # ---------------------------------------------------------------------------
@@ -368,13 +368,13 @@ def static_specs(tier, seed, rng):
     masks = list(range(1 << len(e3)))
     for j, mask in enumerate(rng.sample(masks, 40) if quick else masks):
         add(3, [e3[x] for x in range(len(e3)) if mask >> x & 1], [FAMILIES[fams[j % 5]](3)])
-    for i in range(400 if quick else 6000):
+    for i in range(1000 if quick else 4500):
         n = rng.choice([4, 5, 5, 6, 6, 7])
         f1, f2 = rng.sample(fams, 2)
         add(n, rand_edges(rng, n, min(7, 11 - n), 5), [FAMILIES[f1](n), FAMILIES[f2](n)])
     # connected 3- and 4-uniform hypergraphs labelled 0..N-1, and a relabelled twin (a permutation of 0..N-1)
     nstarts = 4 if quick else 12
-    for i in range(100 if quick else 1000):
+    for i in range(250 if quick else 1000):
         k = 3 if i % 2 == 0 else 4
         n = rng.choice([4, 5, 6, 7] if k == 3 else [5, 6, 7])
         seeds = [(seed * 97 + i * 131 + j) % (2 ** 31) for j in range(nstarts)]
@@ -450,7 +450,7 @@ def temporal_specs(tier, seed, rng):
     quick = tier == "quick"
     specs = []
     tf = ("ident", "sparse", "str", "strE", "zero")
-    for i in range(400 if quick else 6000):
+    for i in range(1000 if quick else 4500):
         n = rng.choice([3, 4, 4, 5, 5, 6])
         times = rng.sample([0, 1, 2, 3, 5, 9], rng.randint(1, 3))
         te = set()
